@@ -137,6 +137,9 @@ def classify(r: RunResult, rec) -> None:
         rec.label("loop-n=0" if min(its) == 0 else "loop-n>0")
         if max(its) >= 10:
             rec.label("loop-n>=10")
+    for b in r.blocks:
+        if b["op"] == "cross":
+            rec.label(f"cross-{b['mode']}")
     if any(len(v) >= 10 for b in r.blocks if b["op"] == "scatter" for v in r.ref[b["src"]].values()):
         rec.label("scatter-len>=10")
     if any(len(v) == 0 for b in r.blocks if b["op"] == "scatter" for v in r.ref[b["src"]].values()):
